@@ -64,8 +64,8 @@ func isErrorExit(ret *ssa.Return) bool {
 	if len(ret.Results) == 0 {
 		return false
 	}
-	v := ret.Results[len(ret.Results)-1]
-	if !isErrorType(v.Type()) {
+	v := returnedValue(ret, len(ret.Results)-1)
+	if v == nil || !isErrorType(v.Type()) {
 		return false
 	}
 	found := false
